@@ -464,7 +464,7 @@ class StratRec:
                 open_fill[e['o']]['qa'] = e['qa']      # plumbing: the monitor needs the size after at the fill's begin
         fin = out.get('final') or {}
         if out.get('exc'):
-            self.emit('exc', cls=out['exc'].split(':')[0])
+            self.emit('exc', cls=out['exc'].split(':')[0], msg=out['exc'].split(':', 1)[1].strip()[:40] if ':' in out['exc'] else '')
         fee = self.item['fee']             # [num, den]
         u = self.punit * self.qunit / fee[1]      # money lattice: quantity unit * price unit / fee denominator
         if self.item.get('spot') and fee[0] != 0:
@@ -626,7 +626,7 @@ def gen_items(seed, count, kinds, n_minutes=240):
         elif kind == 'iso':        # isolated margin, leverage 20: positions without a stop run into the liquidation order
             pol.update(base=100, tick=1.0, qtys=(1, 2), max_entry_rows=1, entry_offsets=(0, 0, -1, 1), max_exit_rows=2,
                        exits_in='on_open', sl_dist=(8, 12), tp_dist=(3, 9), p_edit=0.1, p_liq=0.0, p_edit_reduced=0.3, resize_always=False,
-                       entry_every=rng.choice([5, 7]), p_cancel=0.8)
+                       entry_every=rng.choice([5, 7]), p_cancel=0.8, p_inplace=0.0)     # (one entry fill per cycle: 0.95 * entry stays on the lattice)
             it.update(lev=20, mode='isolated', pdiv=20, walk=dict(step=3, wick=2, room=70, flat_p=0.05), balance=20000, fee=rng.choice([[0, 1], [1, 1024]]))
         elif kind in ('tf15', 'tf60'):   # 15m / 1h trading routes plus data routes (another timeframe, another symbol)
             tf = '15m' if kind == 'tf15' else '1h'
@@ -648,7 +648,7 @@ def gen_items(seed, count, kinds, n_minutes=240):
                 pol.update(base=600, tick=2e-9, entry_offsets=(0, -3, -5, -8, 4, 6))
                 it.update(balance=1, fee=[0, 1], walk=dict(step=2, wick=2, room=400))
             pol.update(qtys=(1, 2), max_entry_rows=3, max_exit_rows=2, exits_in=rng.choice(['go', 'on_open']), p_move_entry=0.3,
-                       p_edit=0.1, p_liq=0.02, p_cancel=0.2, entry_every=rng.choice([9, 11]),
+                       p_edit=0.1, p_liq=0.02, p_cancel=rng.choice([0.2, 0.8]), entry_every=rng.choice([9, 11]),
                        sl_dist=(120, 200) if kind == 'big' else (12, 20), tp_dist=(100, 180) if kind == 'big' else (10, 18))
         elif kind == 'spotover':   # fee-free spot, full-size stop next to a partial take-profit, never re-sized
             pol.update(base=100, tick=1.0, qtys=(2, 3), max_exit_rows=2, exits_in='on_open', allow_short=False,
